@@ -2,7 +2,6 @@ package limits
 
 import (
 	"fmt"
-	"os"
 	"math/rand/v2"
 	"sort"
 	"sync"
@@ -182,7 +181,6 @@ func runLimitCase(r *mon.Run, c LimitCase) {
 			return nil, err
 		}
 		a.Serve()
-		a.Interleave = os.Getenv("C18_DEBUG_INTERLEAVE") != ""
 		all = append(all, a)
 		return &liveAtt{spec: sp, a: a, sub: sub}, nil
 	}
